@@ -169,6 +169,7 @@ type caseRun struct {
 	prim   krt.StaticCollection[Obj]
 	sec    krt.StaticCollection[Obj]
 	secNs  krt.Index[string, Obj]
+	secVal krt.Index[string, Obj]
 	der    krt.Collection[Out]
 	chain  bool
 	top    krt.Collection[Out] // the observed collection: der, or a collection chained behind it
@@ -198,6 +199,8 @@ func (c *caseRun) fetchOpts(i Obj, f []Atom) []krt.FetchOption {
 			opts = append(opts, krt.FilterLabel(i.Sel))
 		case "nsIndex":
 			opts = append(opts, krt.FilterIndex(c.secNs, i.NS))
+		case "valIndex":
+			opts = append(opts, krt.FilterIndex(c.secVal, i.Val))
 		case "generic":
 			n := a.N
 			opts = append(opts, krt.FilterGeneric(func(x any) bool { return genericPred(n, i, x.(Obj)) }))
@@ -243,6 +246,7 @@ func newCaseRun(t Transform, flagged bool) *caseRun {
 	c.prim = krt.NewStaticCollection[Obj](nil, nil, krt.WithStop(c.stop), krt.WithName("prim"))
 	c.sec = krt.NewStaticCollection[Obj](nil, nil, krt.WithStop(c.stop), krt.WithName("sec"))
 	c.secNs = krt.NewNamespaceIndex[Obj](c.sec)
+	c.secVal = krt.NewIndex[string, Obj](c.sec, "val", func(o Obj) []string { return []string{o.Val} })
 	return c
 }
 
@@ -489,6 +493,9 @@ func (c *caseRun) close() { close(c.stop) }
 
 // newRunner builds the program named by the case header (nil: malformed header).
 func newRunner(head []string) runner {
+	if len(head) >= 3 && head[0] == "case" && strings.HasPrefix(head[2], "mem") {
+		return newMemRun()
+	}
 	if len(head) < 4 || head[0] != "case" {
 		return nil
 	}
